@@ -8,6 +8,7 @@ mod explore;
 mod cli;
 mod corpus;
 mod lex;
+mod lexseg;
 mod front;
 mod gram;
 mod nt;
